@@ -5,7 +5,7 @@ live /verif build is disturbed.  usage: seedrun.py <seeded-id> [<seeded-id> ...]
 Writes /verif/seeded/<id>/detect.json (per property: exit code, VIOLATION lines, correspondence
 disagreements, monitor failures)."""
 import json, os, subprocess, sys, shutil
-V = "/tmp/vcopy"; R = "/tmp/mrepo"
+V = os.environ.get("VERIF_VCOPY", "/tmp/vcopy"); R = os.environ.get("VERIF_MREPO", "/tmp/mrepo")
 PROPS = ["C%02d" % i for i in range(1, 19)]
 
 def sh(c, **kw):
